@@ -1,10 +1,10 @@
 CONSTANTS
-  Handles = {"h1", "h2", "o1"}
+  Handles = {"h1", "o1"}
   Ops = {"o1"}
-  InitLive = {"h1", "h2", "o1"}
+  InitLive = {"h1", "o1"}
   Variant = "sync"
   AllowClone = FALSE
-  AllowTake2 = TRUE
+  AllowTake2 = FALSE
   AllowCancel = FALSE
   AllowSpurious = FALSE
   FileLayer = FALSE
